@@ -1,7 +1,7 @@
 //@ unit covers
 //@ props C05
 //@@ depends cosets dsyms free_words partitions
-//@@ same-spec cosets :: valid trace
+//@@ same-spec cosets :: valid trace inv_word
 //@@ same-spec dsyms :: base_complete bop sm_callable sm_functional sm_involutive sm_injective
 use vstd::prelude::*;
 use std::collections::BTreeMap;
@@ -268,6 +268,105 @@ pub fn cover_for_table<T: DSym>(
     __r
 }
 //@ end
+
+// =====================================================================================================
+// Where `words_paired` comes from.  What the presentation of the fundamental group provides is syntactic (C09: "the words attached to the two
+// sides of a non-mirror facet are mutually inverse"; across a mirror the facet word is a generator whose square is a relator), what the
+// coset enumeration provides is that every relator traced from every row returns to that row (C11, the postcondition of coset_table).
+// Together they give the semantic precondition of cover_for_table:
+// =====================================================================================================
+pub open spec fn inv_word(w: Seq<isize>) -> Seq<isize> { Seq::new(w.len(), |k: int| (-(w[w.len() - 1 - k] as int)) as isize) }
+
+// the two words of a facet are mutually inverse, or their product is one of the relators
+pub open spec fn facet_ok(a: Seq<isize>, b: Seq<isize>, rels: Seq<FreeWord>) -> bool {
+    b == inv_word(a) || exists|k: int| 0 <= k < rels.len() && (#[trigger] rels[k])@ == a + b
+}
+pub open spec fn words_by_relators<T: DSet>(ds: &T, m: &BTreeMap<(usize, usize), FreeWord>, rels: Seq<FreeWord>) -> bool {
+    forall|d: usize, i: usize| 1 <= d <= ds.ssize() && i <= ds.sdim() ==>
+        facet_ok(#[trigger] ew_word(m, d, i), ew_word(m, bop(ds, i as int, d as int) as usize, i), rels)
+}
+// every relator traced from every row returns to that row (literally the clause coset_table ensures)
+pub open spec fn closes(t: &CosetTable, relators: Seq<FreeWord>) -> bool {
+    forall|m: int, r: int| 0 <= m < relators.len() && 0 <= r < t.table@.len() ==> #[trigger] trace(t, r, relators[m]@) == Some(r as usize)
+}
+
+proof fn lemma_tr_total(t: &CosetTable, s: int, w: Seq<isize>)
+    requires valid(t), 0 <= s < t.table@.len(), gens_ok(t, w)
+    ensures trace(t, s, w).is_some(), trace(t, s, w).unwrap() < t.table@.len()
+    decreases w.len()
+{
+    if w.len() > 0 {
+        lemma_tr_total(t, s, w.drop_last());
+        assert(t.gen_ok(w[w.len() - 1] as int));
+        let x = trace(t, s, w.drop_last()).unwrap();
+        assert(t.act(x as int, w.last() as int).is_some());
+    }
+}
+
+proof fn lemma_tr_concat(t: &CosetTable, s: int, u: Seq<isize>, v: Seq<isize>)
+    ensures trace(t, s, u + v) == trace2(t, s, u, v)
+    decreases v.len()
+{
+    if v.len() == 0 { assert(u + v =~= u); }
+    else {
+        assert((u + v).drop_last() =~= u + v.drop_last());
+        assert((u + v).last() == v.last());
+        lemma_tr_concat(t, s, u, v.drop_last());
+    }
+}
+
+// tracing a word and then its inverse leads back
+proof fn lemma_tr_inv(t: &CosetTable, s: int, v: Seq<isize>)
+    requires valid(t), 0 <= s < t.table@.len(), gens_ok(t, v)
+    ensures trace2(t, s, v, inv_word(v)) == Some(s as usize), gens_ok(t, inv_word(v))
+    decreases v.len()
+{
+    assert forall|k: int| 0 <= k < inv_word(v).len() implies t.gen_ok(#[trigger] inv_word(v)[k] as int) by {
+        assert(t.gen_ok(v[v.len() - 1 - k] as int));
+    }
+    if v.len() == 0 {
+        assert(inv_word(v) =~= Seq::<isize>::empty());
+    } else {
+        let v0 = v.drop_last();
+        let g = v.last();
+        assert(t.gen_ok(v[v.len() - 1] as int));
+        lemma_tr_total(t, s, v0);
+        let y = trace(t, s, v0).unwrap();
+        let x = t.act(y as int, g as int).unwrap();
+        assert(t.act(y as int, g as int).is_some() && x < t.table@.len() && t.act(x as int, -(g as int)) == Some(y));
+        // inv_word(v) == [-g] + inv_word(v0)
+        let minus_g = (-(g as int)) as isize;
+        assert(inv_word(v) =~= seq![minus_g] + inv_word(v0));
+        lemma_tr_concat(t, x as int, seq![minus_g], inv_word(v0));
+        assert(seq![minus_g].drop_last() =~= Seq::<isize>::empty());
+        assert(seq![minus_g].last() == minus_g);
+        assert(trace(t, x as int, Seq::<isize>::empty()) == Some(x));
+        assert(trace(t, x as int, seq![minus_g]) == t.act(x as int, minus_g as int));
+        assert(trace(t, s, v) == Some(x));
+        lemma_tr_inv(t, s, v0);
+        assert(trace(t, y as int, inv_word(v0)) == Some(s as usize));
+    }
+}
+
+pub proof fn lemma_words_paired<T: DSet>(ds: &T, t: &CosetTable, m: &BTreeMap<(usize, usize), FreeWord>, rels: Seq<FreeWord>)
+    requires valid(t), words_ok(ds, t, m), words_by_relators(ds, m, rels), closes(t, rels)
+    ensures words_paired(ds, t, m)
+{
+    assert forall|d: usize, i: usize, s: int| 1 <= d <= ds.ssize() && i <= ds.sdim() && 0 <= s < t.table@.len() implies
+        trace2(t, s, #[trigger] ew_word(m, d, i), ew_word(m, bop(ds, i as int, d as int) as usize, i)) == Some(s as usize) || #[trigger] unreachable_row(s) by {
+        let a = ew_word(m, d, i);
+        let b = ew_word(m, bop(ds, i as int, d as int) as usize, i);
+        assert(facet_ok(a, b, rels));
+        assert(gens_ok(t, a));
+        if b == inv_word(a) {
+            lemma_tr_inv(t, s, a);
+        } else {
+            let k = choose|k: int| 0 <= k < rels.len() && (#[trigger] rels[k])@ == a + b;
+            lemma_tr_concat(t, s, a, b);
+            assert(trace(t, s, rels[k]@) == Some(s as usize));
+        }
+    }
+}
 
 // =====================================================================================================
 // vacuity canaries (each MUST fail) and a witness
